@@ -166,8 +166,19 @@ def gen_trees(rng, malformed=False):
             net_keys = [nk for nk in net_keys if nk[0] != net]
         elif kind == "leaf-root":
             routes[rng.randrange(len(routes))][1] = g.leaf()
+    # nets of one group have the same source, sinks and weight (as Net objects) and differ only in their keys
+    groups = []
+    ids = [n for n, _ in routes]
+    if len(ids) >= 2 and rng.random() < 0.6:
+        kmof = dict((n, tuple(km)) for n, km in net_keys)
+        for _ in range(rng.randint(1, 2)):
+            a, b = rng.sample(ids, 2)
+            if kmof.get(a) != kmof.get(b) and a not in dict(groups) and b not in dict(groups):
+                groups += [[a, a], [b, a]]
     return dict(kind="trees", routes=routes, net_keys=net_keys, wf=kind, share=share, classes=classes,
-                build=rng.choice(["bottom-up", "bottom-up", "top-down", "top-down", "tuple"]))
+                build=rng.choice(["bottom-up", "bottom-up", "top-down", "top-down", "tuple"]),
+                roundtrip=rng.choice(["none", "none", "none", "pickle", "pickle0", "deepcopy", "copy"]),
+                net_groups=groups)
 
 
 # ====================================================================== generator (ii): loads
@@ -841,6 +852,8 @@ def run(chk, args):
             chk.count("trees:outcome:" + o[0])
             chk.count("trees:entry:" + c.get("entry", "r2t"))
             chk.count("trees:build:" + c.get("build", "bottom-up"))
+            chk.count("trees:roundtrip:" + c.get("roundtrip", "none"))
+            chk.count("trees:same-endpoint-net-pairs:%d" % (len(c.get("net_groups", [])) // 2))
             chk.count("trees:share:" + c["share"])
             chk.count("trees:classes:" + c.get("classes", "plain"))
             chk.count("trees:subclass-nodes:" + ("0" if not any(len(n) > 3 and n[3] for _, t in c["routes"]
